@@ -342,7 +342,7 @@ def run_sampling(ctx):
                 req(ctx, rule, "%s:%s:overflow-error" % (rule, ft.id), all("ModulusOverflow" in k for k in kinds) and kinds,
                     "the refusal is FieldError::ModulusOverflow", "an over-range chunk is not reported as ModulusOverflow: %s" % kinds, loc=ft.loc)
                 # compared value was masked with the mask parameter after the assembly loop
-                good = False
+                good = bool(Bin("BitAnd", Any(), Local(2))(strip(val)))       # `let v = int & mask` compared directly
                 if val[0] == "phi":
                     for (d, conds, bi) in phi_defs(gt, val[1]):
                         if Bin("BitAnd", lambda x: x == val, Local(2), commutative=True)(d) and gt.loop_of(bi) is None and \
